@@ -30,7 +30,21 @@ def _sibling_scenario(case):
     return case
 
 
+def _lookalike_scenario(case):
+    # purely variadic function, two one-argument calls whose arguments print alike (1 / '1'): compute one, then ask for the other
+    if case.get('lookalike_pair'):
+        i, j = case['lookalike_pair']
+        case = dict(case, ops=[['call', i, 0, 0], ['call', j, 0, 0], ['call', i, 0, 0]] + list(case['ops']))
+    return case
+
+
 def strata(tier):
+    look = G.strata_grid(modules=('std', 'safe'), algos=('lru', 'inf', 'no'), purges=(False,), families=('noarch', 'memarch', 'persist'), maxsizes=(2, None),
+                         shapes=[{'varargs': True}, {'varargs': True, 'varkw': True}], weights={'call': 10, 'dump': 2, 'clear': 1, 'load': 1}, max_ops=10, pool=(2, 4))
+    return [('lookalikes/' + n, s.map(_lookalike_scenario)) for n, s in look] + _strata_sib(tier)
+
+
+def _strata_sib(tier):
     # string-keyed persistent archives with sibling argument pairs (x:y / x|y / x y ...)
     sib = G.strata_grid(modules=('std', 'safe'), algos=('lru', 'inf'), purges=(False,), families=('persist', 'direct'), maxsizes=(2, None),
                         weights={'call': 10, 'dump': 2, 'clear': 2, 'load': 1}, max_ops=12, pool=(2, 4), confusable_pct=100)
@@ -87,7 +101,7 @@ def check_trace(case, tr):
 def run_case(case):
     tr = H.run_history(case)
     discrs, ev, flags = check_trace(case, tr)
-    classes = base_classes(case) + [k for k, v in flags.items() if v]
+    classes = base_classes(case) + [k for k, v in flags.items() if v] + (['lookalike_pair'] if case.get('lookalike_pair') else [])
     nt = None
     if flags['load'] or flags['hit_after_eviction']:
         km = case.get('keymap')
@@ -95,6 +109,6 @@ def run_case(case):
     return discrs, nt, sorted(set(classes))
 
 
-REQUIRED_CLASSES = ['load', 'hit_after_eviction', 'second_spelling_hit', 'module:safe', 'eff_algo:no', 'eff_algo:inf', 'eff_algo:mru',
+REQUIRED_CLASSES = ['lookalike_pair', 'load', 'hit_after_eviction', 'second_spelling_hit', 'module:safe', 'eff_algo:no', 'eff_algo:inf', 'eff_algo:mru',
                     'eff_algo:lfu', 'eff_algo:rr', 'keymap:default']
 TRIGGERS = {}
